@@ -111,7 +111,7 @@ OwnFailure(p) ==
       ops == Scripts[P.script]
   IN \/ P.pc <= Len(ops) /\ ops[P.pc].op = "fail" /\ P.result[1].e = ops[P.pc].e
      \/ P.pc <= Len(ops) /\ ops[P.pc].op \in {"open", "use", "close"}
-     \/ P.phase = "filter"                     \* died inside a filter body (forbidden operation)
+     \/ P.phase \in {"filter", "fwait"}         \* died inside a filter body (forbidden operation, failed effect)
 
 OpenAwaitTargets(p) ==
   IF proc[p].sel = None THEN {}
